@@ -211,6 +211,9 @@ func (h *verifC11API) verifRawExchange(pieces [][]byte, wait time.Duration) (sta
 
 func (h *verifC11API) verifRawExec(entry, path string) func(c *kit.C11Case) string {
 	return func(c *kit.C11Case) string {
+		if h.dead.Load() {
+			return "not-sent(server no longer answers)"
+		}
 		v := verifC11RawVariants[0]
 		body := []byte(nil)
 		if len(c.In) > 0 {
@@ -243,6 +246,7 @@ func (h *verifC11API) verifRawExec(entry, path string) func(c *kit.C11Case) stri
 			if status, local, err = h.verifRawExchange(pieces, 60*time.Second); status == 0 {
 				if ne, ok := err.(net.Error); ok && ne.Timeout() {
 					h.rec.Violation("hang:"+entry+":no-response-in-60s:"+v.class, "an HTTP registration request got no answer within 60 s (retried alone)", witness())
+					h.verifStillAnswers(entry)
 					return "NO-ANSWER"
 				}
 			}
@@ -288,7 +292,7 @@ func (h *verifC11API) verifRawDrive(rec *kit.Rec) {
 		{"apiregserver.registerBidirectional[raw framing]", "/register-bidirectional"},
 		{"apiregserver.register[raw framing]", "/register"},
 	} {
-		kit.C11Drive(rec, kit.C11Entry{Name: e.entry, N: n, Workers: 16, Budget: 150 * time.Second,
+		kit.C11Drive(rec, kit.C11Entry{Name: e.entry, N: n, Workers: 16, Budget: 200 * time.Second,
 			Gen: verifC11RawGen, Exec: h.verifRawExec(e.entry, e.path), SampleEvery: 499})
 	}
 }
